@@ -15,6 +15,8 @@ The oracle is the statement itself: "same outcome as on the original".  Keys nam
 C11[<route>:<check or operation group>], one key per site, first witness kept.
 """
 import multiprocessing as mp
+import random
+import zlib
 import os
 import sys
 import time
@@ -92,8 +94,8 @@ Q_OPS = [
     ("sub_self", "q-q", "add"),
     ("add_alt", "q+q.to(ALT)", "add"),
     ("radd_alt", "q.to(ALT)+q", "add"),
-    ("sub_alt", "q-q.to(ALT)", "add"),
-    ("lt_alt", "q<q.to(ALT)", "add"),
+    ("sub_alt", "q-0.5*q.to(ALT)", "add"),
+    ("lt_alt", "q<2*q.to(ALT)", "add"),
     ("eq_self", "q==q", "add"),
     ("ge_self", "q>=q", "add"),
     ("maximum_alt", "np.maximum(q, q.to(ALT))", "add"),
@@ -341,8 +343,6 @@ U_ROUTES = {
     "unit-repr": "r = Unit(repr(o), registry=o.registry)\n",
     "unit-json": "r = Unit(str(o), registry=UnitRegistry.from_json(o.registry.to_json()))\n",
 }
-NEW_REGISTRY_ROUTES = {"pickle", "pickle-nested", "deepcopy", "deepcopy-nested", "json", "unit-pickle",
-                       "unit-pickle-nested", "unit-deepcopy", "unit-copy(deep)", "unit-json"}
 DEFAULT_ONLY_ROUTES = {"savetxt", "savetxt-cols"}     # a text file carries no registry
 # routes that run the same library code share one key family
 ROUTE_KEY = {"pickle-nested": "pickle", "deepcopy-nested": "deepcopy", "unit-pickle-nested": "unit-pickle",
@@ -382,6 +382,8 @@ def build_world(task):
     ns = dict(HELPER_NAMES)
     ns["PROTO"] = task["proto"]
     RT.reset_default_registry()
+    RT.clear_caches()          # the original is built from a clean slate too (SymPy's cache decides
+    #                            whether a parsed compound dimension IS the table's object)
     exec(VARIANTS[task["variant"]]["src"], ns)
     exec(task["subject"], ns)
     w.ns = ns
@@ -389,6 +391,7 @@ def build_world(task):
     w.o_lut = RT.lut_snapshot(w.o.units.registry)
     w.o_sig = RT.usig(w.o.units)
     w.o_canon = RT.canon(w.o)
+    RT.set_subject_tol(w.o)
     RT.clear_caches()
     w.restore_exc = None
     try:
@@ -398,15 +401,6 @@ def build_world(task):
         w.restore_exc = e
         w.r = None
     return w
-
-
-def battery_ops(task, is_unit):
-    ops = []
-    if not is_unit:
-        ops += Q_OPS
-        if task["variant"] in ("custom", "customcgs"):
-            ops += Q_OPS_CUSTOM
-    return ops
 
 
 def run_battery(task, q, o, is_unit):
@@ -443,8 +437,8 @@ def replay_for(task, body):
             "DEFAULT_KEYS = frozenset(_DEFAULT_LUT)\n"
             "def world():\n" % (task["proto"], task["alt"], v["len_unit"], v["system"], v["added"],
                                 v["modified"], v["removed"]))
-    w = "reset_default_registry()\n" + v["src"] + task["subject"] + ("O_LUT = lut_snapshot(o.units.registry)\nO_SIG = usig(o.units)\n"
-                                      "O_CANON = canon(o)\nclear_caches()\n")
+    w = "reset_default_registry()\nclear_caches()\n" + v["src"] + task["subject"] + ("O_LUT = lut_snapshot(o.units.registry)\nO_SIG = usig(o.units)\n"
+                                      "O_CANON = canon(o)\nset_subject_tol(o)\nclear_caches()\n")
     w += "try:\n" + "".join("    " + line + "\n" for line in task["route_src"].splitlines())
     w += "except Exception as e:\n    print('restore raised', repr(e)); r = None\n"
     w += "return dict(locals())\n"
@@ -578,7 +572,7 @@ def run_task(task):
             except Exception as e:  # noqa
                 bad, detail = True, " (check raised %r)" % (e,)
             if bad:
-                struct_bad = struct_bad or name in ("type", "shape", "values", "unit-eq", "unit-expr", "unit-fields")
+                struct_bad = struct_bad or name in ("type", "dtype", "shape", "values", "unit-eq", "unit-expr", "unit-fields")
                 fail("C11[%s:%s%s]" % (route, name, size1),
                      "after restoring: %s%s; original %r restored %r" % (cond, detail, wA.o_canon, RT.outcome(lambda: wA.r)),
                      replay_for(task, "w = world(); o = w['o']; r = w['r']; O_LUT = w['O_LUT']; O_SIG = w['O_SIG']; "
@@ -623,7 +617,8 @@ def run_task(task):
             g = group_of(OP_GROUP[name], cls)
             for order, got, fam in (("A", a_r, ""), ("B", b_r, ""), ("H", b_o, "history.")):
                 if name in got and not RT.same(ref[name], got[name]):
-                    key = "C11[%s:%s%s]" % (route, fam, g)
+                    prec = ".precision" if RT.same_up_to_precision(ref[name], got[name]) else ""
+                    key = "C11[%s:%s%s%s]" % (route, fam, g, prec)
                     if key in seen:
                         continue
                     fail(key, "%s  %s -> original in a fresh world: %r ; %s: %r" % (
@@ -657,7 +652,7 @@ def run_chunk(tasks):
 # enumeration
 # ----------------------------------------------------------------------------------------------
 PINNED_UNITS = [  # one or more witnesses of every behaviour class; always run through every route
-    "degree", "Å", "arcmin", "rad", "lat", "degC", "degF", "delta_degC", "delta_degF", "K", "R", "dB", "Np",
+    "degree", "Å", "m**2", "arcmin", "rad", "lat", "degC", "degF", "delta_degC", "delta_degF", "K", "R", "dB", "Np",
     "m", "g", "statC", "C", "G", "T", "Ω", "dimensionless", "%", "sr", "rpm", "J/K", "degree/s", "km", "mdegC",
     "µm", "kg*m**2/s**2", "g**(1/2)/cm", "erg/s/cm**2/Hz", "100*m", "dB/m",
 ]
@@ -729,8 +724,11 @@ def main():
             "savetxt->loadtxt (single and multi-column), UnitRegistry.to_json/from_json); each case = structural "
             "comparison + ~150 follow-up operations on original and restored in both orders with cleared memo "
             "tables; non-trivial = anything but a float quantity of a plain default-registry unit",
-            "quick: every atomic symbol through 2 routes + pinned class witnesses through every route + seeded "
-            "random compounds; thorough: every atomic/prefixed/compound unit through every route and 3 forms")
+            "quick (~1600 cases): 36 pinned witnesses of every behaviour class (16 of them through all 21 routes, "
+            "pickle protocols 0-5 on 5), every atomic table symbol through 2 seeded routes, 70 prefixed/compound/"
+            "random-compound units, 4 other registries (custom: 27 units); thorough (~8700 cases): every atomic "
+            "symbol as quantity and Unit through every route, all listed units of every registry through every route; "
+            "savetxt routes only for the default registry (a text file carries no registry; temp files under /tmp)")
     t0 = time.time()
     tasks = make_tasks(R)
     run_all(R, tasks, t0)
@@ -755,7 +753,7 @@ def make_tasks(R):
         if key not in alt_cache:
             alt_cache[key] = alt_for(variant, unit)
         src = (U_ROUTES if is_unit else Q_ROUTES)[route]
-        vals = make_values(rng, unit)
+        vals = make_values(random.Random(zlib.crc32(("%s|%s|%s" % (variant, unit, form)).encode())), unit)
         tasks.append(dict(variant=variant, unit=unit, form=form, route=route, route_src=src, proto=proto,
                           subject=subject_src(unit, form, vals), alt=alt_cache[key]))
 
@@ -792,7 +790,7 @@ def make_tasks(R):
                                        if not R.thorough else qroutes):
                 add("default", unit, form, route, 2 + (ui + fi + ri) % 4)
     # table rows whose scale is a numpy scalar (B and the Planck units), low-precision data
-    for ui, unit in enumerate(("dB", "m_pl", "Np")):
+    for ui, unit in enumerate(("dB", "t_pl", "Np", "rad")):   # rad+int16: sin() of the restored array skips the float16 conversion
         for fi, form in enumerate(("a2f32", "a1i16")):
             for ri, route in enumerate(("json", "pickle", "deepcopy", "str")):
                 add("default", unit, form, route, 2 + (ui + fi + ri) % 4)
